@@ -171,6 +171,7 @@ PENDING = {}   # id -> reason, for properties whose check is not built yet
 EXTRA_TEXT = {
     "C05": " Also (P10, shared with C07.S8): the pathname setter removes an existing \"/.\" guard on every path before the new path is written.",
     "C07": " Also: clearing editors erase exactly the span of their component; the pathname setter removes an existing \"/.\" guard before the new path is written.",
+    "C17": " Also (D5): a wrapper that parses the base itself returns a failed result when the base does not parse.",
     "C13": " Also: the compare-exchange that elects the initialiser expects the constant kTablesUninit.",
     "C19": " Also: no refusal of the host setter depends on a condition its twin does not test.",
     "C01": " Also: verdict flags accumulated over a scanning loop are only narrowed / widened there; search/hash getters return the empty string for a null and for an empty component, the host getter appends the port on engagement alone.",
